@@ -2,7 +2,7 @@
 import copy
 import re
 
-from .. import canon, stepcorr as S, stepprop as P
+from .. import pycorr, canon, stepcorr as S, stepprop as P
 
 PROCS = ['filter_rows', 'deduplicate', 'unpivot']
 
@@ -138,6 +138,7 @@ def run(ctx):
         d2 = canon.make_descriptor(resources)
         return d2, rws, {'sel': S.gen_sel(rng, S.res_names(d2), allow_bad=False)}
     P.run_cases(ctx, ['deduplicate'], oracle, ctx.n(150, 2000), salt='key-heavy', gen_hook=key_heavy)
+    pycorr.run(ctx)
     return ctx.finish(search=P.search_from_disagreements(ctx, oracle, PROCS))
 
 
